@@ -190,6 +190,10 @@ def nullability_on_substituted_type(repo: Repo, rep: Report, rule: str) -> None:
                         seen += 1
                         a0 = c.args[0]
                         inst = f"{fi.qualname}: {ast.unparse(c)}"
+                        if isinstance(a0, ast.Name):  # a local bound once to the substituted type
+                            binds = [n.value for n in _own_nodes(fi.node) if isinstance(n, ast.Assign) and any(isinstance(t, ast.Name) and t.id == a0.id for t in n.targets)]
+                            if len(binds) == 1:
+                                a0 = binds[0]
                         if isinstance(a0, ast.Call) and isinstance(a0.func, ast.Attribute) and a0.func.attr == "get_real_type":
                             rep.ok(rule, inst, None)
                         else:
